@@ -33,7 +33,7 @@ func init() {
 		Judge:       judge,
 		Render: func(class string, key []byte) interface{} {
 			p := fw.Unpack(key)
-			return map[string]interface{}{"hrp": fmt.Sprintf("%q", string(p[0])), "hrp_hex": fw.Hex(p[0]), "data": fw.Hex(p[1]), "data_len": len(p[1])}
+			return map[string]interface{}{"hrp": fmt.Sprintf("%+q", string(p[0])), "hrp_hex": fw.Hex(p[0]), "data": fw.Hex(p[1]), "data_len": len(p[1])}
 		},
 		Required: req,
 	})
@@ -82,13 +82,13 @@ func judge(class string, key []byte, o *fw.Obs) {
 	iok := err == nil
 	o.Count(fmt.Sprintf("model=%s impl=%s", ar(mok), ar(iok)))
 	if mok != iok {
-		o.Fail("domain", "Encode(%q, %d bytes): would be %d characters, hrp valid=%v: the model says %s, the implementation %s (err=%v, result %q)",
+		o.Fail("domain", "Encode(%+q, %d bytes): would be %d characters, hrp valid=%v: the model says %s, the implementation %s (err=%v, result %+q)",
 			hrp, len(data), total, hrpOK, ar(mok), ar(iok), err, got)
 		return
 	}
 	if !iok {
 		if got != "" {
-			o.Fail("errorvalue", "Encode(%q, %x) failed with %v but returned the string %q", hrp, data, err, got)
+			o.Fail("errorvalue", "Encode(%+q, %x) failed with %v but returned the string %+q", hrp, data, err, got)
 			return
 		}
 		switch {
@@ -108,7 +108,7 @@ func judge(class string, key []byte, o *fw.Obs) {
 		return
 	}
 	if got != want {
-		o.Fail("value", "Encode(%q, %x) = %q, BIP-173 gives %q", hrp, data, got, want)
+		o.Fail("value", "Encode(%+q, %x) = %+q, BIP-173 gives %+q", hrp, data, got, want)
 		return
 	}
 	if total >= 86 {
@@ -130,7 +130,7 @@ func judge(class string, key []byte, o *fw.Obs) {
 		return
 	}
 	if err != nil || h2 != bech32m.Lower(hrp) || !bytes.Equal(d2, data) {
-		o.Fail("inversion", "Decode(Encode(%q, %x)) = (%q, %x, err=%v) via %q", hrp, data, h2, d2, err, got)
+		o.Fail("inversion", "Decode(Encode(%+q, %x)) = (%+q, %x, err=%v) via %+q", hrp, data, h2, d2, err, got)
 		return
 	}
 	o.Count("round trip ok")
@@ -201,7 +201,7 @@ func dataOf(r *rand.Rand, n, pattern int) []byte {
 func gen(g *fw.Gen) {
 	r := g.Rng
 	idx := 0
-	for rep := g.Pick(6, 150); rep > 0; rep-- {
+	for rep := g.Pick(6, 600); rep > 0; rep-- {
 		for dl := 0; dl <= 55; dl++ {
 			for total := 86; total <= 93; total++ {
 				hl := total - 1 - bech32m.ChecksumLen - nsyms(dl)
@@ -219,7 +219,7 @@ func gen(g *fw.Gen) {
 			}
 		}
 	}
-	for n := g.ShareOf(600000, 16000000); n > 0; n-- {
+	for n := g.ShareOf(600000, 64000000); n > 0; n-- {
 		dl := r.Intn(52)
 		hl := 1 + r.Intn(83)
 		if r.Intn(2) == 0 { // mostly inside the limit
@@ -242,7 +242,7 @@ func gen(g *fw.Gen) {
 		}
 	}
 	idx = 0
-	for rep := g.Pick(4, 100); rep > 0; rep-- {
+	for rep := g.Pick(4, 400); rep > 0; rep-- {
 		for c := 0; c < 256; c++ {
 			if c >= 33 && c <= 126 {
 				continue
@@ -255,7 +255,7 @@ func gen(g *fw.Gen) {
 				idx++
 			}
 		}
-		for _, ru := range []string{"K", "İ", "ı", "ſ", "é", "ß", "Å", "\U0001f600", "\u0080", " ", "\xc0\xaa", "\xe2\x84", "\xed\xa0\x80", "\xef\xbf\xbd"} {
+		for _, ru := range []string{"\u212a", "\u0130", "\u0131", "\u017f", "\u00e9", "\u00df", "\u212b", "\U0001f600", "\u0080", "\u00a0", "\xc0\xaa", "\xe2\x84", "\xed\xa0\x80", "\xef\xbf\xbd"} {
 			for pos := 0; pos < 3; pos++ {
 				for kind := 0; kind < 2; kind++ {
 					if g.Own(idx) {
@@ -272,7 +272,7 @@ func gen(g *fw.Gen) {
 		}
 		idx++
 	}
-	for n := g.ShareOf(60000, 1500000); n > 0; n-- {
+	for n := g.ShareOf(60000, 6000000); n > 0; n-- {
 		// mixed case: a valid hrp with one lower-case and one upper-case letter put in
 		hl := 2 + r.Intn(30)
 		b := []byte(hrpOf(r, hl, r.Intn(6)))
@@ -282,7 +282,7 @@ func gen(g *fw.Gen) {
 		b[j] = lower[r.Intn(26)] - 32
 		g.Emit("badhrp", fw.Pack(b, short()))
 	}
-	for n := g.ShareOf(20000, 500000); n > 0; n-- {
+	for n := g.ShareOf(20000, 2000000); n > 0; n-- {
 		g.Emit("toolong", fw.Pack([]byte(hrpOf(r, 1+r.Intn(4), r.Intn(6))), dataOf(r, 52+r.Intn(19), 2)))
 	}
 }
